@@ -323,19 +323,29 @@ def names_for(case):
         return list(case["names"])
     rng = random.Random(case["nameseed"])
     style = case.get("style", "str")
+    def _fit(pool, extra):
+        # pools are sized for the small cases; mid-sized cases (9-12 nodes) extend them deterministically
+        pool = list(pool)
+        i = 0
+        while len(pool) < case["n"]:
+            cand = extra(i)
+            i += 1
+            if cand not in pool:
+                pool.append(cand)
+        return pool
     if style == "substr":
-        pool = list(SUBSTR)
+        pool = _fit(SUBSTR, lambda i: "x1%d" % i)
         rng.shuffle(pool)
         return pool[:case["n"]]
     if style == "bigint":
-        pool = list(BIGINT)
+        pool = _fit(BIGINT, lambda i: 5000 + 257 * i)
         rng.shuffle(pool)
         return pool[:case["n"]]
     if style != "str":
         # CausalInference.query / BayesianNetwork.do accept any hashable node name (b0e2b86); the graph tests
         # (set helper) accept strings only, so only the bn stream uses these
         return common.node_names(rng, case["n"], style)
-    pool = list(NAMEPOOL)
+    pool = _fit(NAMEPOOL, lambda i: "node%d" % i)
     rng.shuffle(pool)
     return pool[:case["n"]]
 
